@@ -404,7 +404,7 @@ def rule_exec_order(ctx, rep, rule_id="R-EXEC-ORDER", declare=True):
     consumers = {}
     for n in walk_no_nested(run.node):
         if isinstance(n, ast.Call) and last_attr(n.func) in ("apply_codemods", "compile_results"):
-            args = [unparse(a) for a in n.args]
+            args = [unparse(a) for a in n.args] + [unparse(k.value) for k in n.keywords]
             consumers[last_attr(n.func)] = args
     ok = (
         len(sel_names) == 1
